@@ -1059,6 +1059,25 @@ def rot_facts(repo, sk, facts, notes):
 # ===== C14/C15 block end =====
 
 
+# ===== C04 repair block begin (which codec decodes the elements of a std::tuple; add-only, owned by props/c04.py) =====
+def c04t_facts(repo, sk, facts, notes):
+    """the flag `disp` of Codec/CodecDefs.v: Codec<std::tuple<Types...>>::decode_arg decodes element i with
+    Codec<Types_i> (shape 1: the codec that encoded it), or with the codec of the element's *decoded* type
+    (shape 2, the pinned code: Codec<std::decay_t<decltype(elems)>> on a tuple of decoded types); 0 = neither
+    text recognised. The comment-stripped body is emitted as well."""
+    try:
+        txt = open(os.path.join(repo, 'include', 'quill', 'std', 'Tuple.h')).read()
+    except OSError:
+        txt = ''
+    b = [x for n, x in _c11_fn_bodies(txt, ['decode_arg'])]
+    body = b[0] if len(b) == 1 else ''
+    by_elem = bool(re.fullmatch(r'\{ return std::tuple<decltype\(Codec<Types>::decode_arg\(buffer\)\)\.\.\.>\{Codec<Types>::decode_arg\(buffer\)\.\.\.\}; \}', body))
+    by_decoded = ('Codec<std::decay_t<decltype(elems)>>::decode_arg(buffer)' in body) and ('Codec<Types>::decode_arg(buffer)...}' not in body)
+    facts['codec_tuple_decode_shape'] = 1 if by_elem else 2 if by_decoded else 0
+    sk['codec_tuple_decode_body'] = [body]
+# ===== C04 repair block end =====
+
+
 def main():
     repo = REPO; out = os.path.join(os.path.dirname(os.path.abspath(__file__)), '..', 'coq', 'gen', 'SrcFacts.v')
     a = sys.argv[1:]
@@ -1079,6 +1098,7 @@ def main():
     reg_facts(repo, sk, facts, notes)   # C03 block
     c11f_facts(repo, sk, facts, notes)   # C11 repair block
     rot_facts(repo, sk, facts, notes)   # C14/C15 block
+    c04t_facts(repo, sk, facts, notes)   # C04 repair block
     txt = emit(sk, facts, notes, os.path.normpath(out))
     if dump:
         for k in sorted(sk):
